@@ -230,3 +230,99 @@ fn d12_torn_item_header_debug_assert() {
     assert_eq!(a.get("k0").unwrap().as_deref(), Some(&b"first"[..]));
     assert_eq!(a.get("k").unwrap(), None);
 }
+
+#[test]
+fn d10_meta_seqno_restore() {
+    let dir = tempfile::tempdir().unwrap();
+    {
+        let db = Database::builder(&dir).open().unwrap();
+        let a = db.keyspace("a", KeyspaceCreateOptions::default).unwrap();
+        a.insert("ka", "va").unwrap();
+        let b = db.keyspace("b", KeyspaceCreateOptions::default).unwrap();
+        println!("seqno after creates = {}", db.seqno());
+        db.delete_keyspace(b).unwrap();
+        println!("seqno after delete = {} visible={}", db.seqno(), db.visible_seqno());
+    }
+    {
+        let db = Database::builder(&dir).open().unwrap();
+        println!("seqno after reopen = {} visible={}", db.seqno(), db.visible_seqno());
+        let c = db.keyspace("c", KeyspaceCreateOptions::default).unwrap();
+        println!("c id={} seqno now={}", c.id(), db.seqno());
+        c.insert("kc", "vc").unwrap();
+        let d = db.keyspace("d", KeyspaceCreateOptions::default).unwrap();
+        d.insert("kd", "vd").unwrap();
+        assert!(db.keyspace_exists("c"));
+    }
+    {
+        let db = Database::builder(&dir).open().unwrap();
+        println!("names after 2nd reopen: {:?}", db.list_keyspace_names());
+        assert!(db.keyspace_exists("c"), "keyspace c vanished");
+        let c = db.keyspace("c", KeyspaceCreateOptions::default).unwrap();
+        assert_eq!(c.get("kc").unwrap().as_deref(), Some(&b"vc"[..]));
+    }
+}
+
+#[test]
+fn d11_with_capacity_batch_not_flushed() {
+    let dir = tempfile::tempdir().unwrap();
+    let db = Database::builder(&dir).open().unwrap();
+    let a = db.keyspace("a", KeyspaceCreateOptions::default).unwrap();
+    let mut b = fjall::OwnedWriteBatch::with_capacity(db.clone(), 4);
+    b.insert(&a, "needle-key-1234567", "needle-value");
+    b.commit().unwrap();
+    // acknowledged; a process crash now keeps only what reached the OS
+    let bytes = std::fs::read(dir.path().join("0.jnl")).unwrap();
+    let found = bytes.windows(18).any(|w| w == b"needle-key-1234567");
+    println!("with_capacity: record in OS file after ack: {found}");
+    let mut b2 = db.batch();
+    b2.insert(&a, "second-key-7654321", "v");
+    b2.commit().unwrap();
+    let bytes = std::fs::read(dir.path().join("0.jnl")).unwrap();
+    println!("db.batch(): record in OS file after ack: {}", bytes.windows(18).any(|w| w == b"second-key-7654321"));
+    assert!(found, "acknowledged batch is still only in the user-space buffer");
+}
+
+#[repr(C)]
+struct Rlimit { cur: u64, max: u64 }
+extern "C" {
+    fn setrlimit(resource: i32, rlim: *const Rlimit) -> i32;
+    fn signal(sig: i32, handler: usize) -> usize;
+}
+fn set_fsize(cur: u64) { unsafe { signal(25, 1); assert_eq!(0, setrlimit(1, &Rlimit { cur, max: u64::MAX })); } }
+
+#[test]
+fn d4_batch_write_error_does_not_poison() {
+    let dir = tempfile::tempdir().unwrap();
+    {
+        let db = Database::builder(&dir).manual_journal_persist(true).open().unwrap();
+        let a = db.keyspace("a", KeyspaceCreateOptions::default).unwrap();
+        a.insert("first", "x").unwrap();
+        db.persist(fjall::PersistMode::Buffer).unwrap();
+        // any write() at file offset >= 20_000 now fails with EFBIG
+        set_fsize(20_000);
+        let val = vec![7u8; 1000];
+        let mut failed_at = None;
+        for round in 0..100 {
+            let mut b = db.batch();
+            for i in 0..3 { b.insert(&a, format!("r{round:03}-{i}"), val.clone()); }
+            match b.commit() { Ok(()) => {}, Err(e) => { println!("commit {round} failed: {e:?}"); failed_at = Some(round); break; } }
+        }
+        assert!(failed_at.is_some(), "no injected failure happened");
+        set_fsize(u64::MAX);
+        // fail-stop demands that this is refused
+        let mut b = db.batch();
+        b.insert(&a, "after-failure", "acked");
+        let r = b.commit();
+        println!("commit after failure: {:?}", r.as_ref().map(|_| "Ok"));
+        let p = db.persist(fjall::PersistMode::SyncAll);
+        println!("persist after failure: {:?}", p.as_ref().map(|_| "Ok"));
+        if r.is_ok() {
+            drop(a); drop(db);
+            let db = Database::builder(&dir).open().unwrap();
+            let a = db.keyspace("a", KeyspaceCreateOptions::default).unwrap();
+            let got = a.get("after-failure").unwrap();
+            println!("after reopen: after-failure = {:?}, first = {:?}", got, a.get("first").unwrap());
+            panic!("write acknowledged after a journal write failure (recovered: {})", got.is_some());
+        }
+    }
+}
